@@ -148,3 +148,9 @@ pub assume_specification<T, E> [Result::<T, E>::unwrap_or] (a: Result<T, E>, def
 pub assume_specification<T, E, F: FnOnce(E) -> T> [Result::<T, E>::unwrap_or_else] (a: Result<T, E>, f: F) -> (r: T)
     requires a is Err ==> f.requires((a->Err_0,)),
     ensures a is Ok ==> r == a->Ok_0, a is Err ==> f.ensures((a->Err_0,), r);
+
+// std::task::Poll predicates (no vstd specification; assumed, std definitions)
+pub assume_specification<T> [ std::task::Poll::<T>::is_pending ] (p: &std::task::Poll<T>) -> (r: bool)
+    ensures r == (*p is Pending);
+pub assume_specification<T> [ std::task::Poll::<T>::is_ready ] (p: &std::task::Poll<T>) -> (r: bool)
+    ensures r == (*p is Ready);
